@@ -223,24 +223,31 @@ func vgenEncapSubTLV(r *rand.Rand, quirk string, tags *[]string) TunnelEncapSubT
 		default:
 			b, _ = NewBSID(vgenBytes(r, 16))
 		}
-		return &TunnelEncapSubTLVSRBSID{TunnelEncapSubTLV: TunnelEncapSubTLV{Type: ENCAP_SUBTLV_TYPE_SRBINDING_SID}, Flags: vgenU8(r), BSID: b}
+		// (no constructor: the cached sub-TLV length is filled in like the constructors of the other kinds do)
+		return &TunnelEncapSubTLVSRBSID{TunnelEncapSubTLV: TunnelEncapSubTLV{Type: ENCAP_SUBTLV_TYPE_SRBINDING_SID, Length: uint16(2 + b.Len())}, Flags: vgenU8(r), BSID: b}
 	case 10:
 		tag("srseglist")
 		sl := &TunnelEncapSubTLVSRSegmentList{TunnelEncapSubTLV: TunnelEncapSubTLV{Type: ENCAP_SUBTLV_TYPE_SRSEGMENT_LIST}}
+		ll := 1
 		if vgenBool(r) {
-			sl.Weight = &SegmentListWeight{TunnelEncapSubTLV: TunnelEncapSubTLV{Type: SegmentListSubTLVWeight}, Flags: vgenU8(r), Weight: vgenU32(r)}
+			sl.Weight = &SegmentListWeight{TunnelEncapSubTLV: TunnelEncapSubTLV{Type: SegmentListSubTLVWeight, Length: 6}, Flags: vgenU8(r), Weight: vgenU32(r)}
+			ll += 8
 		}
 		for i := vgenSmallLen(r, 4); i > 0; i-- {
 			if vgenBool(r) {
-				sl.Segments = append(sl.Segments, &SegmentTypeA{TunnelEncapSubTLV: TunnelEncapSubTLV{Type: EncapSubTLVType(TypeA)}, Flags: vgenU8(r), Label: vgenU32(r)})
+				sl.Segments = append(sl.Segments, &SegmentTypeA{TunnelEncapSubTLV: TunnelEncapSubTLV{Type: EncapSubTLVType(TypeA), Length: 6}, Flags: vgenU8(r), Label: vgenU32(r)})
+				ll += 8
 			} else {
-				s := &SegmentTypeB{TunnelEncapSubTLV: TunnelEncapSubTLV{Type: EncapSubTLVType(TypeB)}, Flags: vgenU8(r), SID: vgenBytes(r, 16)}
+				s := &SegmentTypeB{TunnelEncapSubTLV: TunnelEncapSubTLV{Type: EncapSubTLVType(TypeB), Length: 18}, Flags: vgenU8(r), SID: vgenBytes(r, 16)}
 				if vgenBool(r) {
 					s.SRv6EBS = &SRv6EndpointBehaviorStructure{Behavior: SRBehavior(vgenU16(r)), BlockLen: vgenU8(r), NodeLen: vgenU8(r), FuncLen: vgenU8(r), ArgLen: vgenU8(r)}
+					s.Length = 26
 				}
 				sl.Segments = append(sl.Segments, s)
+				ll += 2 + int(s.Length)
 			}
 		}
+		sl.Length = uint16(ll)
 		return sl
 	default:
 		tag("unknown")
